@@ -66,7 +66,7 @@ def run(ctx):
     allpods = sorted(qa.T.pod_hours)
     basepods = [p for p in qa.PODS if p in qa.T.pod_hours]
     days = list(e2e.all_days())
-    step = 9 if ctx.quick else 1
+    step = 9 if ctx.quick else 2       # thorough: every second day of the 28-year cycle (seed-dependent phase), ~3.5 M rows
     off = rnd.randrange(step)
     sel = [d for i, d in enumerate(days) if i % step == off]
     cases = []
@@ -79,7 +79,7 @@ def run(ctx):
         cases.append({"ts": d + (12, 43), "pairs": [(2, 28), (2, 29), (3, 1), (12, 31)], "pods": basepods, "dowdom": True})
     for hm in [(0, 0), (5, 59), (6, 0), (6, 1), (11, 59), (12, 0), (17, 0), (23, 59)]:
         cases.append({"ts": (2020, 2, 28) + hm, "pairs": [(2, 28), (2, 29), (3, 1)], "pods": allpods})
-    core.run_stage(ctx, "rule-rows", cases, rows_for_day, "RulesTrace", sig_keys=(), nontrivial=lambda c: c["ts"])
+    core.run_stage(ctx, "rule-rows", cases, rows_for_day, "RulesTrace", sig_keys=(), nontrivial=lambda c: c["ts"], batch=400)
 
     # end to end
     forms = []
@@ -137,9 +137,9 @@ def run(ctx):
     if ctx.quick:
         dates = [d + (12, 43) for d in e2e.boundary_dates()]
     else:
-        dates = [d + hm for d in days[::2] for hm in ((0, 0), (23, 59))]
+        dates = [d + hm for d in days[ctx.seed % 4::4] for hm in ((0, 0), (23, 59))]
     cases = [{"text": t, "D": D, "ts": ts, "label": lab, "form": t} for lab, t, D in reps for ts in dates]
-    core.run_stage(ctx, "e2e-dates", cases, e2e.obs_day, "DenoteTrace")
+    core.run_stage(ctx, "e2e-dates", cases, e2e.obs_day, "DenoteTrace", batch=100000)
 
 
 def replay(ctx, rp):
